@@ -16,6 +16,10 @@ DEDUCTIVE = [
      "targets": ["lemma:layout80", "lemma:layout_ter", "lemma:strip_digit_sign", "lemma:strip_clean", "lemma:digit_sign_clean", "lemma:signed_digit_value", "lemma:strip_digit_then_sign",
                  "lemma:inv_record", "lemma:inv_serial", "lemma:inv_name", "lemma:inv_ljust1", "lemma:inv_rjust3", "lemma:inv_rjust2",
                  "lemma:inv_resseq", "lemma:int_of_str", "lemma:roundtrip_line"]},
+    # the record-level sentence: the row loop of write_pdb with its MODEL / ENDMDL / TER state machine (pandas abstracted to
+    # iterrows / row.get / pd.isna / cell conversions, the text buffer to its list of written chunks)
+    {"module": "rnapolis.parser_v2", "sidecar": "contracts.parser_v2_write_c", "targets": ["write_pdb"],
+     "opts": {"z3_probe_ms": 400, "cvc5_probe_s": 6}},
 ]
 TRUSTED = ["pandas (DataFrame construction, dtype coercion)", "mmcif IoAdapterPy reader/writer as used by the library (its quoting is part of what is exercised, not assumed)",
            "gen/emit.py + gen/atomtables_c09.py emitters and oracles/roundtrip_o.py column slicing (written from the PDB 3.3 / mmCIF descriptions, not from the library)",
@@ -25,7 +29,17 @@ TRUSTED = ["pandas (DataFrame construction, dtype coercion)", "mmcif IoAdapterPy
            "str.strip(): uninterpreted py_strip (external str.strip); its meaning enters only through the definitional lemma strip_definition (see ASSUMPTIONS)",
            "str.splitlines(): returns some list of strings (external str.splitlines; nothing assumed about how the text is cut - the decode contract is stated per line of that list)",
            "float(str): pyvc's uninterpreted py_float / py_float_ok; int(str): pyvc ext_int_of_str (ASCII grammar, value str.to_int on digit strings, '-' negates); pandas.to_numeric on the decoded number texts is taken to be int()/float() of the text",
-           "z3 / cvc5 (strings, integers <-> strings, regular expressions)"]
+           "z3 / cvc5 (strings, integers <-> strings, regular expressions)",
+           # assumed externals of contracts/parser_v2_write_c.py (deductive part: row loop of write_pdb)
+           "pandas DataFrame as used by write_pdb, abstracted (contracts/parser_v2_write_c.py): df.attrs.get('format', 'PDB') returns a str (record Attrs); df.empty is a bool; "
+           "df.iterrows() (external Frame.iterrows) yields the rows in table order, nrows(df) of them, row i being the value Row(df, i) (the index label is not used by the code); "
+           "row.get(key[, default]) (external Row.get) returns the cell object Cell(cell_of(df, i, key)) when the table has the column (uninterpreted has_col(df, key)) and the default otherwise "
+           "(None -> Optional cell; a cell default -> a cell; for a constant default the column must be present: call-site obligation row.get[key].column-present); "
+           "the record-name columns record_type / group_PDB are read as str objects (obligation row.get[key].cell-is-a-str, value = cell_str of the cell)",
+           "pd.isna(x) (external pandas isna): True for None, the uninterpreted cell_isna for a cell; int(cell) / float(cell) / str(cell) (externals Cell.__int__ / __float__ / __str__): "
+           "the uninterpreted cell_int / cell_float / cell_str of the cell, int() / float() raising unless the uninterpreted cell_int_ok / cell_float_ok hold; str(None) is 'None'",
+           "io.StringIO (externals _io.StringIO, Buffer.write, Buffer.getvalue, Buffer.close): write(s) appends s to the buffer's list of written chunks, getvalue() returns the uninterpreted "
+           "`joined` of that list (standing for the concatenation of the chunks in order)"]
 ASSUMPTIONS = [
     "formal charge is compared as a signed integer (PDB text '2+' = mmCIF integer 2); on paths that pass through PDB an explicit mmCIF charge 0 and an absent charge are not distinguished (PDB has one blank form for both); mmCIF->mmCIF distinguishes them",
     "a blank PDB chain column is the empty chain identifier; such tables can only start from PDB text (paths PDB->PDB and PDB->mmCIF->PDB)",
@@ -42,6 +56,18 @@ ASSUMPTIONS = [
     "assumed-external lemma float_of_signed_digit (variant _format_pdb_atom_line@signed_charge: the charge handed over as a signed integer text such as '2' / '-1', the mmCIF form): float of an optionally negated single digit is defined and equals the integer it spells",
     "assumed-external lemmas fmt83_roundtrip / fmt62_roundtrip: float(strip(format(x, '8.3f'))) is defined and within 0.0005 of x (0.005 for '6.2f') when x fits the field - 'parse(format(x)) is within half a unit of the last place'",
     "real numbers stand for floats (no nan / inf, no rounding inside the engine): int(float) is truncation of a real",
+    # deductive part, row loop of write_pdb (contracts/parser_v2_write_c.py)
+    "write_pdb is verified for output=None (the text is returned); the branches that write `content` to a path / file object are not executed by the proof (the loop does not read `output`)",
+    "DEDUCTIVE quantifier of write_pdb (requires of contract write_pdb): df.empty holds exactly when the table has no rows (tables with rows but no columns excluded); a table tagged 'PDB' has the 16 columns "
+    "parse_pdb_atoms builds, a table tagged 'mmCIF' has group_PDB, id, label_atom_id, label_comp_id, label_seq_id, Cartn_x/y/z, occupancy, B_iso_or_equiv, pdbx_PDB_model_num (auth_* identifiers, "
+    "label_alt_id, label_asym_id, pdbx_PDB_ins_code, type_symbol, pdbx_formal_charge may be missing); in every row the record-name cell is a str and the numeric cells are accepted by int() / float() "
+    "(spec readable); the atom a row stands for (specs atom_pdb / atom_cif: which column feeds which PDB field, author identifiers before label identifiers, missing values -> '') is within PDB limits "
+    "(spec fits_any = fits_core plus a charge that is blank, digit+sign, or an optionally negated digit); the last atom of every chain has serial <= 99998 and a residue name without leading / trailing "
+    "whitespace (spec ter_fits: what _format_pdb_ter_line's contract requires)",
+    "DERIVED callee contract format_atom_any (contracts/parser_v2_write_c.py, not a verify target): {RA or RB} _format_pdb_atom_line {(RA -> EA) and (RB -> EB)} obtained by the Hoare conjunction / consequence "
+    "rules from the two contracts {RA} f {EA} (_format_pdb_atom_line) and {RB} f {EB} (_format_pdb_atom_line@signed_charge) proved above on the same function; built mechanically from their clause lists",
+    "the contract used for _format_pdb_ter_line at write_pdb's call sites is the proved contract of parser_v2_c (same requires / ensures objects) with the additional call-site obligation that an Optional argument is not None",
+    "a 'model' is a maximal run of consecutive rows with one model number, a 'chain' a maximal run of consecutive rows with one (model number, chain identifier) - as in the bounded oracle",
 ]
 EXPLANATION = ("DEDUCTIVE (string level, real code of parser_v2.py re-read on every run): "
                "(1) _format_pdb_atom_line under contract: for atom data within PDB limits the result has exactly 80 columns and every field sits at its PDB 3.3 columns - "
@@ -58,7 +84,22 @@ EXPLANATION = ("DEDUCTIVE (string level, real code of parser_v2.py re-read on ev
                "everything mmCIF (parse_cif_atoms, write_cif, the mmcif library), fit_to_pdb. "
                "BOUNDED: generated atom tables within PDB limits are emitted as PDB and mmCIF text by independent emitters, read by parse_pdb_atoms / "
                "parse_cif_atoms, then sent through write_pdb / write_cif and read back along the four paths; every listed field of every row is compared with the "
-               "table that was written; every PDB text produced by write_pdb is sliced by our own PDB 3.3 column table. Corpus files go through the same paths.")
+               "table that was written; every PDB text produced by write_pdb is sliced by our own PDB 3.3 column table. Corpus files go through the same paths. "
+               "DEDUCTIVE, added later (supersedes 'NOT deductive: the pandas row loop of write_pdb' above; write_cif, the DataFrame construction and everything mmCIF-library stay bounded): "
+               "(5) write_pdb under contract (contracts/parser_v2_write_c.py; whole function for output=None, real code re-read on every run; pandas abstracted to iterrows / row.get / pd.isna / cell conversions, "
+               "the StringIO buffer to its list OUT of written chunks, result = joined(OUT)). Ghost maps kept along the real loop: POS[i] = position in OUT of the atom line of row i, LINES[i] = the string "
+               "_format_pdb_atom_line returned for row i, TER[i] = the string _format_pdb_ter_line returned for the chain ending with row i; every quantified variable is a row index (existence-free). Clauses: "
+               "[one-atom-line-per-row, atom-line-of-row-i-at-POS-i, atom-lines-in-table-order] every row has exactly one position POS[i], OUT[POS[i]] == LINES[i] + newline, POS strictly increasing; "
+               "[atom-line-is-the-formatter-layout-of-the-row] LINES[i] satisfies the postcondition of _format_pdb_atom_line for the atom built from row i, i.e. 80 columns with every field at its PDB 3.3 columns; "
+               "[MODEL-opens-the-first-model, ENDMDL-then-MODEL-at-every-model-change, ENDMDL-closes-the-last-model] OUT[0] is 'MODEL' + the first row's model number right-justified in 4 columns and POS[0] == 1; where the model number changes "
+               "between rows i and i+1 the chunks after row i's atom line are TER, 'ENDMDL', the MODEL record of row i+1's model, then row i+1's atom line (POS[i+1] == POS[i] + 4); behind the last row: TER, 'ENDMDL' "
+               "(so every atom line lies between a MODEL and the next ENDMDL, also for a single model); "
+               "[TER-after-the-last-atom-of-every-chain] for every row i that ends a chain (last row, or next row has another model or chain identifier - a blank identifier is a chain identifier) OUT[POS[i] + 1] == TER[i] + newline "
+               "and TER[i] satisfies the postcondition of _format_pdb_ter_line for serial = serial(i) + 1, the residue name / number / insertion code and the chain identifier of row i - before the next chain's first atom and before ENDMDL; "
+               "[nothing-between-atoms-of-one-chain, only-TER-between-chains-of-one-model, END-and-nothing-more, empty-table-END-only] inside a chain POS[i+1] == POS[i] + 1, at a chain change inside a model POS[i+1] == POS[i] + 2, "
+               "behind the last ENDMDL only 'END' (len(OUT) == POS[N-1] + 4), an empty table gives 'END' alone: together these fix every position of OUT. "
+               "[raises.ValueError.only-when / whenever] ValueError exactly when the table has rows and its format tag is neither 'PDB' nor 'mmCIF'. "
+               "Proof: loop invariants over the same maps; the string-level predicates (layout of a line, same chain / model, MODEL text) are named by explicit ghost definitions and unfolded instance by instance.")
 
 CHECKS = [
     # (check name, aspect, nontrivial(info))
